@@ -14,7 +14,7 @@ from vf import nodes_c42 as N
 META = {
     'technique': 'Coq proof (fold invariants over peer rows and over snapshot sequences) on a hand-written model of '
                  'ControlConnection._refresh_node_list_and_token_map + per-refresh correspondence with the real method',
-    'level_text': 'C42_exact, C42_exact_seq, C42_records_mirror, C42_added_once, C42_removed_once, C42_location_reaches_lbp, '
+    'level_text': 'C42_exact, C42_inv_seq, C42_exact_seq, C42_valid_spec, C42_added_once, C42_removed_once, C42_location_reaches_lbp, '
                   'C42_token_rebuild_iff_changed, C42_membership_change_rebuilds proved for every state with the control node known, every '
                   'snapshot (any number of peer rows, invalid and duplicate rows included) and every snapshot sequence; '
                   'C42_tokens_mirror_refuted / C42_tokens_mirror_partial isolate the open finding (token-only changes).',
@@ -163,7 +163,7 @@ def run(ctx):
     ctx.exhaustive = False
     cases, meta = [], []
     todo = list(corpus_cases())
-    n = 450 if ctx.tier == 'quick' else 9000
+    n = 450 if ctx.tier == 'quick' else 4000
     for _ in range(n):
         todo.append(gen_case(ctx.rng))
     for case in todo:
